@@ -1,12 +1,13 @@
 """C10 - Population bookkeeping on spectra equals explicit index arithmetic, keeps labels
 
-Status: bounded run-time contracts only (props/bounded_C10.py) until the proof obligations of DESIGN.md 7 C10 are added.
+Contracts: the obligations listed in tasks() (contracts/py_wiring.py, contracts/py_memo.py, contracts/c_*.py) are generated from the real source on every run and
+discharged by z3 / the ring normaliser; clauses outside their reach are run-time contracts over stated bounded domains (props/bounded_C10.py).
 """
 from vf.helpers import bounded_tasks
 
 META = dict(
     level='other',
-    explanation='Run-time contracts on the real functions over the bounded domain stated per driver (bounded stand-in; nothing proved).',
+    explanation='Wiring / closed-form / memo-key contracts generated from the real source and discharged by z3 and the ring normaliser for the functions within reach (see coverage.obligations); the remaining clauses are run-time contracts over the bounded domain stated per driver (bounded stand-in, never counted as proved).',
     trusted_base=['oracles of props/bounded_C10.py (independent of dadi: exact rationals, mpmath, dense linear algebra, explicit index loops)'],
     rule='cases enumerated or sampled as stated in each driver\'s bound; a case is non-trivial unless the driver marks it degenerate; distinct by its key',
 )
@@ -14,7 +15,10 @@ META = dict(
 
 def tasks(tier):
     from vf.core import Task
-    return [Task('props.wire:run', name='C10/wire.c10_reorder_pops', fname='c10_reorder_pops', timeout=300)] + bounded_tasks('C10', tier)
+    cases = [((2, 3), [1, 2]), ((1, 2, 1), [3, 1]), ((2, 1, 2), [2, 3])] + ([((3, 3), [2, 1]), ((1, 1, 2, 1), [4, 2])] if tier == 'thorough' else [])
+    comb = [Task('props.wire:run', name='C10/wire.combine_two_pops.ns%s.c%s' % ('_'.join(map(str, ns)), '_'.join(map(str, tc))), fname='c10_combine_two_pops',
+                 kwargs=dict(ns=list(ns), tocombine=tc), timeout=600) for ns, tc in cases]
+    return [Task('props.wire:run', name='C10/wire.c10_reorder_pops', fname='c10_reorder_pops', timeout=300)] + comb + bounded_tasks('C10', tier)
 
 
 MANIFEST_ENTRY = dict(
